@@ -13,6 +13,12 @@ def run_pair(c_exe, lean_exe, lines, timeout=60):
     txt = "\n".join(lines) + "\n"
     rc1, o1, e1 = vlib.run_driver(c_exe, txt, timeout=timeout)
     rc2, o2, e2 = vlib.run_driver(lean_exe, txt, timeout=timeout)
+    if rc2 == 124:
+        # the model always terminates (fuel); a time-out only says the machine is busy: wait for it
+        rc2, o2, e2 = vlib.run_driver(lean_exe, txt, timeout=40 * timeout)
+    if rc1 == 124 and rc2 == 0:
+        # same for the implementation, once; if it still does not finish while the model does, that is a divergence
+        rc1, o1, e1 = vlib.run_driver(c_exe, txt, timeout=10 * timeout)
     return (rc1, o1.splitlines(), e1), (rc2, o2.splitlines(), e2)
 
 
